@@ -1,27 +1,27 @@
 import StyluaModel.Model.HangOp
 import Driver.SemiProto
-/- `sugar drop <lf|crlf> <openLead> <openTrail> <argLead> <argTrail> <closeLead> <closeTrail>` /
-   `sugar add <lf|crlf> <argLead> <argTrail>`: hex of what is printed between the callee and the end of the call,
+/- `sugar drop <lf|crlf> <argument text hex> <openLead> <openTrail> <argLead> <argTrail> <closeLead> <closeTrail>` /
+   `sugar add <lf|crlf> <argument text hex> <argLead> <argTrail>`: hex of what is printed between the callee and the end of the call,
    the argument token written as `"x"` -/
 namespace Driver.SugarProto
 open StyluaModel.Trivia StyluaModel.Sugar Driver.TriviaProto Driver.SemiProto
 
 def rr (e : List Char) (l : List Out) : List Char := l.flatMap (renderOut e)
 
-def handleDrop (eol a b c d f g : String) : String :=
+def handleDrop (eol arg a b c d f g : String) : String :=
   let e := if eol == "crlf" then ['\r', '\n'] else ['\n']
-  match items parseItem a, items parseItem b, items parseItem c, items parseItem d, items parseItem f, items parseItem g with
-  | some A, some B, some C, some D, some F, some G =>
+  match items parseItem a, items parseItem b, items parseItem c, items parseItem d, items parseItem f, items parseItem g, Driver.stringOfHex arg with
+  | some A, some B, some C, some D, some F, some G, some argText =>
       let (lead, trail) := dropParens e A B C D F G
-      Driver.hexOfChars (rr e lead ++ "\"x\"".toList ++ rr e trail)
-  | _, _, _, _, _, _ => "bad-op"
+      Driver.hexOfChars (rr e lead ++ argText.toList ++ rr e trail)
+  | _, _, _, _, _, _, _ => "bad-op"
 
-def handleAdd (eol c d : String) : String :=
+def handleAdd (eol arg c d : String) : String :=
   let e := if eol == "crlf" then ['\r', '\n'] else ['\n']
-  match items parseItem c, items parseItem d with
-  | some C, some D =>
+  match items parseItem c, items parseItem d, Driver.stringOfHex arg with
+  | some C, some D, some argText =>
       let (lead, trail) := addParens e C D
-      Driver.hexOfChars (['('] ++ rr e lead ++ "\"x\"".toList ++ [')'] ++ rr e trail)
-  | _, _ => "bad-op"
+      Driver.hexOfChars (['('] ++ rr e lead ++ argText.toList ++ [')'] ++ rr e trail)
+  | _, _, _ => "bad-op"
 
 end Driver.SugarProto
